@@ -975,12 +975,11 @@ func TypeConforms(ctx map[ast.Variable]ast.BaseTerm, left ast.BaseTerm, right as
 	}
 	if leftTuple, ok := left.(ast.ApplyFn); ok && leftTuple.Function.Symbol == TupleType.Symbol {
 		if rightTuple, ok := right.(ast.ApplyFn); ok && rightTuple.Function.Symbol == TupleType.Symbol {
-			for i, leftArg := range leftTuple.Args {
-				if !TypeConforms(ctx, leftArg, rightTuple.Args[i]) {
-					return false
-				}
+			if len(leftTuple.Args) < 2 || len(rightTuple.Args) < 2 {
+				return false
 			}
-			return true
+			// Tuples of different lengths are compared through the nested pairs they stand for.
+			return TypeConforms(ctx, expandTupleType(leftTuple.Args), expandTupleType(rightTuple.Args))
 		}
 	}
 
